@@ -66,8 +66,7 @@ func newGraph(project *types.Project) (*graph[types.ServiceConfig], error) {
 					}
 					return nil, fmt.Errorf("service %q depends on unknown service %q", name, dep)
 				}
-				delete(s.DependsOn, name)
-				project.Services[name] = s
+				// optional dependency on a service which is not enabled: no edge
 				continue
 			}
 			src.children[dep] = dest
